@@ -48,6 +48,18 @@ def gen_cases(rng, tier, corr, stats):
         s = 1
         msg = common.rnd_bytes(rng, mlen)
         ses = ["X %d %s %s" % (s, v, init)]
+        if v in ("xof", "xofa") and not init.startswith("INITK") and rng.random() < 0.3:
+            # reach the same start through *_reinit* on an object with a prior history: a different declared length / customisation,
+            # nothing / whole blocks / a partial block absorbed, possibly squeezed
+            prior = rng.choice(["INIT", "INITF %d" % rng.choice([0, 16, 32, 64]), "INITC %s %s %d" % (hx(b"prior"), hx(b"c"), rng.choice([0, 32, 40]))])
+            ses = ["X %d %s %s" % (s, v, prior)]
+            pl = rng.choice([0, 0, 8, 16, 24, 3, 13])
+            if pl:
+                ses.append("X %d ABS %s" % (s, hx(common.rnd_bytes(rng, pl))))
+            if rng.random() < 0.3:
+                ses.append("X %d SQZ %d" % (s, rng.choice([1, 8, 40])))
+            ses.append("X %d %s RE%s" % (s, v, init))
+            stats["ops"]["reinit-after-history"] = stats["ops"].get("reinit-after-history", 0) + 1
         padded = v in ("xof", "xofa") and rng.random() < 0.25      # pad() between absorb calls (theorem C03_pad): positions on and off a block boundary
         for c in gen.split_data(msg, gen.partition(rng, mlen, 8)):
             ses.append("X %d ABS %s" % (s, hx(c)))
